@@ -29,6 +29,11 @@ TDiag == /\ Step("Diags") /\ Keep /\ UNCHANGED <<verdicts, ref>>
          /\ (Ev.lexeme # "" /\ \E i \in 1..Len(Ev.diags) : Ev.diags[i].code = Ev.code /\ ~Ev.diags[i].haslexeme) => Report2("wrong-argument", "")
          \* an undeclared name at a using position: some ERROR names it
          /\ (Ev.mustquote /\ ~\E i \in 1..Len(Ev.diags) : Ev.diags[i].sev = "ERROR" /\ Ev.diags[i].quotes) => Report2("offender-not-quoted", "")
+(* C20 on a schema set spread over several files (the used schemas are found as <schema>.exp): every diagnostic names *)
+(* one of the files of the set, and the fault that was placed in the used schema aux is attributed to aux.exp        *)
+TSplit == /\ Step("SplitDiags") /\ Keep /\ UNCHANGED <<verdicts, ref>>
+          /\ (Ev.allowed # <<"ok">>) => Report2("file-attribution", "")
+          /\ (Ev.faultfiles # <<"aux.exp">>) => Report2("fault-attributed-to-another-file", "")
 (* C20: -w c / -i c change only whether class-c warnings are printed *)
 Filter(ds, c) == SelectSeq(ds, LAMBDA d : ~(d.sev = "WARNING" /\ d.cls = c))
 TRef == Step("Plain") /\ ref' = Ev.diags /\ Keep /\ UNCHANGED verdicts
@@ -45,6 +50,6 @@ TOptFault == /\ Step("OptFault") /\ Keep /\ UNCHANGED <<verdicts, ref>>
              /\ (~Ev.refused /\ Filter(Ev.diags, Ev.cls) # Filter(ref, Ev.cls)) => Report2("option-changes-other-diagnostics", "")
              /\ (Ev.refused /\ Len(Ev.diags) > 0) => Report2("refused-option-but-input-processed", "")
 TInit == Init /\ l = 1 /\ verdicts = {} /\ ref = <<>>
-TNext == TInput \/ TRun \/ TDiag \/ TRef \/ TOpt \/ TOptFault
+TNext == TInput \/ TRun \/ TDiag \/ TRef \/ TOpt \/ TOptFault \/ TSplit
 TraceAccepted == TLCGet("stats").diameter - 1 = Len(TraceLog)
 ====
